@@ -47,26 +47,24 @@ theorem parseActionBody_ok {fs : Facts} {acts : List SAct} {r : Req} {a : SAct} 
 
 
 /-- results that keep the handler's contract can always be rendered -/
-theorem responseKids_isSome {fs : Facts} {act : SAct} {vals : List (Str × Val)}
+theorem responseKids_isOk {fs : Facts} {act : SAct} {vals : List (Str × Val)}
     (h : vals.all (fun p => match act.outs.find? (fun a => a.name = p.1) with
                              | some a => schemaOk fs a.var p.2
                              | none => false) = true) :
-    (responseKids fs act vals).isSome = true := by
+    ∃ ks, responseKids fs act vals = .ok ks := by
   induction vals with
-  | nil => simp [responseKids]
+  | nil => exact ⟨[], rfl⟩
   | cons p rest ih =>
     obtain ⟨k, v⟩ := p
     simp only [List.all_cons, Bool.and_eq_true] at h
     obtain ⟨h1, h2⟩ := h
-    have ih' := ih h2
+    obtain ⟨ks, hks⟩ := ih h2
     simp only [responseKids]
     cases hf : act.outs.find? (fun a => a.name = k) with
     | none => simp [hf] at h1
     | some a =>
       simp only [hf] at h1
-      cases hr : responseKids fs act rest with
-      | none => simp [hr] at ih'
-      | some ks => simp [h1]
+      exact ⟨leaf (plain k) (out v) :: ks, by simp [h1, hks]⟩
 
 /-- the handler keeps its contract for every action of the service -/
 def HandlerOk (fs : Facts) (acts : List SAct) (h : Handler) : Prop :=
@@ -95,10 +93,8 @@ theorem serverHandle_cases (fs : Facts) (stype : Str) (acts : List SAct) (h : Ha
       | ret vals =>
         simp only [hres] at hk
         simp only [validResults, Bool.and_eq_true] at hk
-        have := responseKids_isSome hk.1
-        cases hr : responseKids fs act vals with
-        | none => simp [hr] at this
-        | some ks => exact Or.inr (Or.inr ⟨envelope [Xml.node (responseTag stype act.name) [] none ks], by simp [hr]⟩)
+        obtain ⟨ks, hr⟩ := responseKids_isOk hk.1
+        exact Or.inr (Or.inr ⟨envelope [Xml.node (responseTag stype act.name) [] none ks], by simp [hr]⟩)
 
 
 /-- an invalid request (Spec: `invalidReq`) is answered 400 or with the SOAP fault 402 -/
@@ -129,8 +125,8 @@ theorem serverHandle_reached {fs : Facts} {stype : Str} {acts : List SAct} {h : 
          | .err code => .resp 500 (faultDoc (match code with | some c => if c = 0 then 501 else c | none => 501))
          | .ret vals =>
            match responseKids fs act vals with
-           | some ks => .resp 200 (envelope [.node (responseTag stype n) [] none ks])
-           | none => .unhandled "handler-contract".toList) := by
+           | .ok ks => .resp 200 (envelope [.node (responseTag stype n) [] none ks])
+           | .error e => .unhandled e.toList) := by
   unfold handlerInput at hi
   cases hp : parseActionBody fs acts r with
   | bad reason => simp [hp] at hi
